@@ -32,6 +32,13 @@ func main() {
 		probeTrace(os.Args[2])
 		return
 	}
+	if len(os.Args) > 2 && os.Args[1] == "farrx" {
+		var n uint64
+		fmt.Sscan(os.Args[2], &n)
+		t0 := time.Now()
+		fmt.Println("result:", c14FarRx(n), time.Since(t0))
+		return
+	}
 	if len(os.Args) > 2 && os.Args[1] == "far" {
 		var n uint64
 		fmt.Sscan(os.Args[2], &n)
